@@ -4,7 +4,7 @@
     (`Newton.solveScalar`, `Newton.solveCx`): a bounded loop with early exit, a step function, a
     stopping test and a list of evaluation points per iteration; `NewtonGen.loop_char` describes
     every run by the iterate sequence `x_{k+1} = step x_k`.
-  * `Mat.forM'_split`, `Mat.forM'_error_at`: a bounded loop split at an intermediate index; a loop
+  * `Mat.forM'_split_nw`, `Mat.forM'_error_at_nw`: a bounded loop split at an intermediate index; a loop
     whose prefix returns and whose body fails at the split index fails with that error.
   Core Lean only.
 -/
@@ -109,7 +109,7 @@ end NewtonGen
 namespace Mat
 
 /-- a bounded loop split at an intermediate index -/
-theorem forM'_split {σ : Type} (lo mid hi : Nat) (s : σ) (f : σ → Nat → Res σ)
+theorem forM'_split_nw {σ : Type} (lo mid hi : Nat) (s : σ) (f : σ → Nat → Res σ)
     (h1 : lo ≤ mid) (h2 : mid ≤ hi) :
     forM' lo hi s f = (forM' lo mid s f) >>= (fun s' => forM' mid hi s' f) := by
   unfold forM'
@@ -123,16 +123,16 @@ theorem forM'_split {σ : Type} (lo mid hi : Nat) (s : σ) (f : σ → Nat → R
 
 /-- if the loop over `lo..j` returns `s'` and the body fails on `(s', j)` (`j < hi`), the loop over
     `lo..hi` fails with the same error -/
-theorem forM'_error_at {σ : Type} (lo j hi : Nat) (s s' : σ) (f : σ → Nat → Res σ) (e : Err)
+theorem forM'_error_at_nw {σ : Type} (lo j hi : Nat) (s s' : σ) (f : σ → Nat → Res σ) (e : Err)
     (h1 : lo ≤ j) (h2 : j < hi) (hpre : forM' lo j s f = .ok s') (hbody : f s' j = .error e) :
     forM' lo hi s f = .error e := by
-  rw [forM'_split lo j hi s f h1 (Nat.le_of_lt h2), hpre]
+  rw [forM'_split_nw lo j hi s f h1 (Nat.le_of_lt h2), hpre]
   show forM' j hi s' f = .error e
   exact forM'_first_error j hi s' f e h2 hbody
 
 /-- a failing loop fails at a definite index: the loop over the prefix returns and the body fails
     there -/
-theorem forM'_error_split {σ : Type} (f : σ → Nat → Res σ) (e : Err) :
+theorem forM'_error_split_nw {σ : Type} (f : σ → Nat → Res σ) (e : Err) :
     ∀ (cnt lo : Nat) (s : σ), forM' lo (lo + cnt) s f = .error e →
       ∃ j s', lo ≤ j ∧ j < lo + cnt ∧ forM' lo j s f = .ok s' ∧ f s' j = .error e
   | 0, lo, s, h => by
@@ -146,7 +146,7 @@ theorem forM'_error_split {σ : Type} (f : σ → Nat → Res σ) (e : Err) :
       cases h
       exact ⟨lo, s, Nat.le_refl _, by omega, forM'_empty lo lo s f (Nat.le_refl _), hb⟩
     | ok s1 =>
-      have hsp := forM'_split lo (lo + 1) (lo + (cnt + 1)) s f (by omega) (by omega)
+      have hsp := forM'_split_nw lo (lo + 1) (lo + (cnt + 1)) s f (by omega) (by omega)
       have h1 : forM' lo (lo + 1) s f = .ok s1 := by
         unfold forM'
         rw [show lo + 1 - lo = 1 by omega]
@@ -155,9 +155,9 @@ theorem forM'_error_split {σ : Type} (f : σ → Nat → Res σ) (e : Err) :
       have h' : forM' (lo + 1) (lo + 1 + cnt) s1 f = .error e := by
         rw [show lo + 1 + cnt = lo + (cnt + 1) by omega, ← h, hsp]
         rfl
-      obtain ⟨j, s', a, b, c, d⟩ := forM'_error_split f e cnt (lo + 1) s1 h'
+      obtain ⟨j, s', a, b, c, d⟩ := forM'_error_split_nw f e cnt (lo + 1) s1 h'
       refine ⟨j, s', by omega, by omega, ?_, d⟩
-      rw [forM'_split lo (lo + 1) j s f (by omega) a, h1]
+      rw [forM'_split_nw lo (lo + 1) j s f (by omega) a, h1]
       exact c
 
 end Mat
